@@ -712,10 +712,31 @@ fn c13_same_count(rng: &mut Rng, id: String, rep: &mut Report) {
         g += 1;
     }
     let matched_before = w.nucleo.as_ref().unwrap().snapshot().matched_item_count();
-    let variant = rng.below(3);
+    let variant = rng.below(4);
     let begin;
     let st;
+    let mut still_held: Option<HeldWriter> = None;
     match variant {
+        3 => {
+            // a writer stays parked inside its fill callback: every tick leaves a run behind (the item count is below
+            // the number of reserved indices) although neither the pattern nor the set of visible items changes from
+            // run to run - the promise of the tick stands for the second and third such run as well
+            let hw = HeldWriter::start(&mut w, k);
+            for _ in 0..rng.range(1, 3) {
+                w.n().tick(30);
+                wait_no_run_pending(2000);
+            }
+            if rng.coin() {
+                pause_at(Point::RunEntry);
+            }
+            begin = record_event(EvKind::TickBegin);
+            st = w.n().tick(0);
+            if !wait_paused(0, 300) {
+                cancel_pause(0);
+            }
+            release(0);
+            still_held = Some(hw);
+        }
         0 | 1 => {
             // new stream with the same number of (matching) items, snapshot retained or cleared
             w.restart(variant == 1);
@@ -753,13 +774,16 @@ fn c13_same_count(rng: &mut Rng, id: String, rep: &mut Report) {
     }
     rep.count(&format!("c13.same-count.variant{variant}.running={}", st.running));
     // wait until every spawned run has passed its notification decision
-    let ok = wait_no_run_pending(3000);
+    let ok = wait_no_run_pending(3000) || w.runs_finished_barrier(3000);
+    // (the notification of the writer's own push comes later and must not be mistaken for the run's)
+    let events_before_release = with_ctl(|c| c.events.len());
     std::thread::sleep(Duration::from_millis(2));
     if !ok {
         rep.count("c13.runs-still-pending(inconclusive)");
     } else {
         rep.count("c13.schedules-judged");
-        let events = with_ctl(|c| c.events.clone());
+        let mut events = with_ctl(|c| c.events.clone());
+        events.truncate(events_before_release);
         let notified_after = events.iter().any(|(s, k)| *k == EvKind::Notify && *s > begin);
         if st.running && !notified_after {
             let tail: Vec<J> = events.iter().rev().take(30).rev().map(|(s, k)| J::Str(format!("{s}: {k:?}"))).collect();
@@ -771,6 +795,9 @@ fn c13_same_count(rng: &mut Rng, id: String, rep: &mut Report) {
                        "case_id" => id, "events_tail" => J::Arr(tail)},
             );
         }
+    }
+    if let Some(mut hw) = still_held.take() {
+        hw.release();
     }
     while !w.handles.is_empty() {
         w.drop_injector(0);
@@ -827,7 +854,7 @@ fn c13_update_config(rng: &mut Rng, id: String, rep: &mut Report) {
     w.update_config_same();
     let _ = releaser.join();
     rep.count(&format!("c13.update-config.run-held={held}.running={}", st.running));
-    let ok = wait_no_run_pending(3000);
+    let ok = wait_no_run_pending(3000) || w.runs_finished_barrier(3000);
     std::thread::sleep(Duration::from_millis(2));
     if !ok {
         rep.count("c13.runs-still-pending(inconclusive)");
